@@ -242,6 +242,14 @@ func genC16Doc(t *rapid.T, did string) (*didtypes.DIDDocument, string) {
 			vm1.Id = did + "#" + sized(128, "한")
 			doc.Authentications[0] = didtypes.NewVerificationRelationship(vm1.Id)
 		}},
+		{"method-id-multibyte-129-bytes-43-runes", func() {
+			vm1.Id = did + "#" + strings.Repeat("키", 43)
+			doc.Authentications[0] = didtypes.NewVerificationRelationship(vm1.Id)
+		}},
+		{"method-id-multibyte-384-bytes-128-runes", func() {
+			vm1.Id = did + "#" + strings.Repeat("키", 128)
+			doc.Authentications[0] = didtypes.NewVerificationRelationship(vm1.Id)
+		}},
 		{"type-empty", func() { vm1.Type = "" }},
 		{"type-unknown(valid)", func() { vm1.Type = "SomeFutureKey2031" }},
 		{"key-empty", func() { vm1.PublicKeyBase58 = "" }},
